@@ -36,6 +36,18 @@
 namespace util {
 namespace stream {
 
+#ifdef KPU_KENLM_VERIF
+// Verification hook (add-only): lets a test harness observe the grouping decisions of the merge passes.
+//   what == 0: one merge group was formed, a = number of runs merged, b = bytes written for it
+//   what == 1: one MergingReader::Run is about to finish
+#define KPU_KENLM_VERIF_SORT_OBSERVER 1
+namespace verif {
+typedef void (*SortObserver)(int what, uint64_t a, uint64_t b);
+inline SortObserver &SortObserverRef() { static SortObserver observer = NULL; return observer; }
+inline void SortObserve(int what, uint64_t a, uint64_t b) { if (SortObserverRef()) SortObserverRef()(what, a, b); }
+} // namespace verif
+#endif
+
 struct NeverCombine {
   template <class Compare> bool operator()(const void *, const void *, const Compare &) const {
     return false;
@@ -241,6 +253,9 @@ template <class Compare, class Combine> class MergingReader {
     void Run(const ChainPosition &position, bool assert_one) {
       // Special case: nothing to read.
       if (!in_offsets_->RemainingBlocks()) {
+#ifdef KPU_KENLM_VERIF
+        verif::SortObserve(1, 0, 0);
+#endif
         Link l(position);
         l.Poison();
         return;
@@ -250,6 +265,10 @@ template <class Compare, class Combine> class MergingReader {
         // Sequencing is important.
         uint64_t offset = in_offsets_->TotalOffset();
         uint64_t amount = in_offsets_->NextSize();
+#ifdef KPU_KENLM_VERIF
+        verif::SortObserve(0, 1, amount);
+        verif::SortObserve(1, 0, 0);
+#endif
         ReadSingle(offset, amount, position);
         if (out_offsets_) out_offsets_->Append(amount);
         return;
@@ -288,6 +307,9 @@ template <class Compare, class Combine> class MergingReader {
           abort();
         }
 
+#ifdef KPU_KENLM_VERIF
+        const uint64_t verif_group_runs = queue.Size();
+#endif
         uint64_t written = 0;
         // Merge including combiner support.
         memcpy(str.Get(), queue.Top(), entry_size);
@@ -300,7 +322,13 @@ template <class Compare, class Combine> class MergingReader {
         ++written; ++str;
         if (out_offsets_)
           out_offsets_->Append(written * entry_size);
+#ifdef KPU_KENLM_VERIF
+        verif::SortObserve(0, verif_group_runs, written * entry_size);
+#endif
       }
+#ifdef KPU_KENLM_VERIF
+      verif::SortObserve(1, 0, 0);
+#endif
       str.Poison();
     }
 
